@@ -17,6 +17,7 @@ func TestNamespaces(t *testing.T) {
 	component(t, func(h *H) {
 		nspRawScripts(t, h)
 		nspClients(t, h)
+		nspDuringMiddleware(t, h)
 	})
 }
 
@@ -35,16 +36,16 @@ func nspRawScripts(t *testing.T, h *H) {
 	accepts := []int{1, 2, 3, 4, 7}
 	fixed := [][]string{
 		{"c1", "c2", "e1:7", "d1", "e2:8", "e1:9"},
-		{"e2:1"},               // event for a namespace never joined
-		{"c2", "e3:1"},         // /ab is not /a
+		{"e2:1"},       // event for a namespace never joined
+		{"c2", "e3:1"}, // /ab is not /a
 		{"c2", "c3", "e2:1", "e3:2", "d2", "e3:3"},
-		{"c1", "c1"},           // second CONNECT
-		{"c5", "e5:1"},         // namespace that does not exist: CONNECT_ERROR, then the event closes
-		{"c6", "e6:1"},         // middleware rejects
-		{"c1", "x1"},           // CONNECT_ERROR from a client
+		{"c1", "c1"},   // second CONNECT
+		{"c5", "e5:1"}, // namespace that does not exist: CONNECT_ERROR, then the event closes
+		{"c6", "e6:1"}, // middleware rejects
+		{"c1", "x1"},   // CONNECT_ERROR from a client
 		{"c4", "c2", "e4:5", "a4:0", "a2:0", "a2:0"},
 		{"c7", "e7:3", "d7", "d7"},
-		{"c1", "a1:5"},         // ack nobody waits for: stays inside its namespace
+		{"c1", "a1:5"}, // ack nobody waits for: stays inside its namespace
 		{"d1"},
 	}
 	n := 60
@@ -293,6 +294,80 @@ func containsInt(xs []int, x int) bool {
 
 // real Go clients: 1..4 namespaces on shared and separate connections, random interleavings of
 // connect / emit / ack / broadcast / disconnect, CONNECT replies delayed per namespace
+// a namespace broadcasts while the middleware chain of a candidate socket is still deciding (the middleware has put the
+// candidate into a room): nothing of the namespace reaches the client before its CONNECT was accepted, nothing at all if it
+// is refused
+func nspDuringMiddleware(t *testing.T, h *H) {
+	for _, tr := range []string{"polling", "websocket"} {
+		for _, accept := range []bool{true, false} {
+			tap := newWireTap()
+			var mu sync.Mutex
+			var handled []string
+			connected := false
+			synctest.Test(t, func(t *testing.T) {
+				r := newRig(nil)
+				r.server.Of("/").OnConnection(func(sio.ServerSocket) {})
+				vip := r.server.Of("/vip")
+				vip.Use(func(s sio.ServerSocket, hs *sio.Handshake) any {
+					s.Join("members")
+					time.Sleep(time.Second)
+					if !accept {
+						return "refused"
+					}
+					return nil
+				})
+				vip.OnConnection(func(sio.ServerSocket) {})
+				m := r.manager([]string{tr}, &sio.ManagerConfig{NoReconnection: true, ParserCreator: tap.creator()})
+				root := m.Socket("/", nil)
+				root.Connect()
+				c := m.Socket("/vip", nil)
+				c.OnConnect(func() { mu.Lock(); connected = true; mu.Unlock() })
+				c.OnEvent("secret", func(v string) { mu.Lock(); handled = append(handled, "secret:"+v); mu.Unlock() })
+				c.OnEvent("news", func(v string) { mu.Lock(); handled = append(handled, "news:"+v); mu.Unlock() })
+				c.Connect()
+				time.Sleep(500 * time.Millisecond) // the middleware of /vip is deciding
+				vip.To("members").Emit("secret", "early")
+				vip.Emit("news", "early")
+				time.Sleep(2 * time.Second) // the verdict is in
+				vip.To("members").Emit("secret", "late")
+				vip.Emit("news", "late")
+				time.Sleep(time.Second)
+				r.shutdown(m)
+			})
+			desc := fmt.Sprintf("transport=%s: /vip broadcasts while its middleware (which joined the candidate to a room) is deciding; verdict accept=%v", tr, accept)
+			h.Eval()
+			h.NonTrivial(desc)
+			h.Dist("clients.duringMiddleware")
+			var wire []string
+			seenConnect := false
+			for _, rec := range tap.records() {
+				if rec.nsp != "/vip" {
+					continue
+				}
+				wire = append(wire, fmt.Sprintf("type%d:%s:%s", rec.typ, rec.event, rec.first))
+				if rec.typ == 0 {
+					seenConnect = true
+				}
+				if (rec.typ == 2 || rec.typ == 5) && !seenConnect {
+					h.Violation("C05", "a client receives traffic of a namespace before the server accepted its CONNECT for it", desc, fmt.Sprintf("packets of /vip received by the client, in order: %v", wire))
+					break
+				}
+			}
+			mu.Lock()
+			want := "[secret:late news:late]"
+			if !accept {
+				want = "[]"
+			}
+			sortedHandled := append([]string(nil), handled...)
+			sort.Slice(sortedHandled, func(i, j int) bool { return sortedHandled[i] > sortedHandled[j] })
+			if fmt.Sprint(sortedHandled) != want {
+				h.Violation("C05", "a broadcast of a namespace does not reach exactly the sockets of that namespace", desc, fmt.Sprintf("the client's /vip handlers received %v, expected %s (connected=%v); wire: %v", handled, want, connected, wire))
+			}
+			mu.Unlock()
+		}
+	}
+}
+
 func nspClients(t *testing.T, h *H) {
 	n := 30
 	if h.Thorough() {
@@ -327,8 +402,8 @@ func nspClients(t *testing.T, h *H) {
 		trs := [][]string{{"polling"}, {"websocket"}, {"polling", "websocket"}}[i%3]
 		var mu sync.Mutex
 		var viol []string
-		srvGot := map[string][]string{}   // server-side: namespace -> received values
-		cliGot := map[string][]string{}   // client-side: namespace -> received values
+		srvGot := map[string][]string{} // server-side: namespace -> received values
+		cliGot := map[string][]string{} // client-side: namespace -> received values
 		ackGot := map[string][]string{}
 		disc := map[string]int{}
 		discBefore := map[string]int{} // server-side disconnects observed before the scenario's own tear-down
